@@ -201,6 +201,25 @@ def handVerdict (prop : String) (args res : List String) : Verdict :=
       if !tilingOk Rdest.Gen.PIECE_BLOCK_SIZE len blocks then vProp "T1-blocks-do-not-tile-the-piece" tag
       else if blocks ≠ model then vDiff "left" (toString model) tag
       else vOk tag
+  | ["mreq", sts, flags, idxS], [out] =>
+    -- the manager's answer to RecvRequest (Peer::handle_request) vs `managerAnswersLoad`
+    match idxS.toNat? with
+    | none => vBad "mreq"
+    | some idx =>
+      let stl := if sts = "-" then [] else sts.splitOn ","
+      let n := stl.length
+      let isHave := stl.getD idx "m" = "h"
+      let fl := flags.toList
+      let amChoked := fl.getD 0 '1' = '1'
+      let choked := fl.getD 1 '1' = '1'
+      let tag := "mreq-" ++ (if amChoked then "amchoked" else "amunchoked") ++ (if choked then "-choked" else "-unchoked") ++
+        (if idx < n then (if isHave then "-have" else "-nothave") else "-outofrange")
+      let hashHex := toHex ((List.range 20).map fun k => UInt8.ofNat (idx * 31 + k))
+      let model := if managerAnswersLoad amChoked n idx isHave then s!"ld:{idx}:{hashHex}" else "ig"
+      if out = "P" then vProp "manager-panics-on-request" tag
+      else if out ≠ "ig" ∧ (amChoked ∨ ¬ isHave ∨ idx ≥ n) then vProp "piece-served-to-a-choked-peer-or-not-owned" tag
+      else if out ≠ model then vDiff "mreq" model tag
+      else vOk tag
   | ["hand", mode, nps, script], [outs] =>
     if outs = "P" ∨ (outs.splitOn "PANIC").length > 1 then vProp "task-panicked" "hand" else
     match nps.toNat?, initState mode (nps.toNat?.getD 0), (script.splitOn ";").mapM parseEv with
